@@ -78,6 +78,15 @@ func cmdVerify(args []string) {
 		}
 		obs = append(obs, vc.obs...)
 	}
+	if lobs, err := w.LemmaObligations(""); err == nil {
+		for _, ob := range lobs {
+			if re.MatchString(ob.Name) {
+				obs = append(obs, ob)
+			}
+		}
+	} else {
+		fmt.Println("LEMMA-ERROR", err)
+	}
 	s := NewSolver(*work)
 	s.TimeoutS = *to
 	s.NoCache = *nocache
